@@ -41,6 +41,14 @@ func namedStruct(t types.Type) (*types.Named, *types.Struct) {
 	return n, s
 }
 
+// directStruct: t itself (not a pointer to it) is a named struct type.
+func directStruct(t types.Type) (*types.Named, *types.Struct) {
+	if _, ok := t.Underlying().(*types.Pointer); ok {
+		return nil, nil
+	}
+	return namedStruct(t)
+}
+
 // SortOf maps a Go type to its SMT sort (declaring datatypes on demand).
 func (tm *TypeMap) SortOf(t types.Type) Sort {
 	t = types.Unalias(t)
